@@ -19,6 +19,7 @@ VF_BUCKET(uint64_t, 100, 7, 32, float);
 VF_BUCKET_BIG(uint64_t, 1, 4095, 0, float);
 VF_BUCKET(uint64_t, 3, 2, 8, float);
 VF_BUCKET(uint32_t, 1, 4095, 16, float);
+VF_BUCKET_GIANT(uint32_t, 1, 4095, 16, float);
 #endif
 #if VF_GROUP == 4
 VF_BUCKET_SWEEP(uint64_t, 1, 4095, 0, float);
